@@ -1176,6 +1176,19 @@ fn oracle(run: &mut Run, w: &World, ip: IpAddr, rvar: f64, msg: &[u8], buf: usiz
             }
         }
     }
+    // ---------------- C18 (reflection, NTPv5 header): timescale, era and the reserved flag bits of an answer are the
+    // server's own (UTC, era 0, no interleaved mode), whatever the request carried there
+    if let Some(p) = &out.parsed {
+        let h = &p.header;
+        if (h[0] >> 3) & 7 == 5 && h.len() >= 16 {
+            if h[12] != 0 || h[13] != 0 {
+                ofail(run, "c18_reflects_only", &attrs(abs), &format!("NTPv5 answer carries timescale {} era {} (request: timescale {} era {}); the server's are 0 / 0", h[12], h[13], msg.get(12).copied().unwrap_or(0), msg.get(13).copied().unwrap_or(0)));
+            }
+            if h[14] != 0 || h[15] & !0b101 != 0 {
+                ofail(run, "c18_reflects_only", &attrs(abs), &format!("NTPv5 answer carries flag bits {:02x}{:02x} beyond synchronized / authnak", h[14], h[15]));
+            }
+        }
+    }
     // ---------------- C18 (reflection): every field of the answer is a uid of the request, a refid response, draft id, padding or a fresh cookie
     if let Some(p) = &out.parsed {
         for f in p.untrusted.iter().chain(p.auth.iter()).chain(p.enc.iter()) {
@@ -1220,6 +1233,12 @@ fn growth_cause(msg: &[u8], abs: &Abs, big: &Outcome) -> &'static str {
     let (_, _, req_draft, _) = req_wire_sums(&abs.text);
     let resp_draft = big.parsed.as_ref().map(|p| p.untrusted.iter().chain(p.auth.iter()).any(|f| f.starts_with("d:"))).unwrap_or(false);
     let draft_growth = if abs.version == 5 && resp_draft && !req_draft { 28 } else { 0 };
+    // F-C17a is about the RFC 7822 minimum sizes (NTPv4 clear-text fields, and the 16 octets of authenticated fields
+    // in both versions); clear-text NTPv5 fields have no minimum beyond their header, so an identifier that grows in
+    // an NTPv5 answer without authenticator is NOT a known cause
+    if abs.version == 5 && !has_enc && uid_growth > 0 && overflow > 0 {
+        return "v5-field-growth";
+    }
     if overflow == 0 {
         "none"
     } else if uid_growth >= overflow {
@@ -1531,6 +1550,18 @@ fn gen_plain_v5(rng: &mut Rng) -> Vec<u8> {
         fields.push(field(0xF5FF, DRAFT.as_bytes()));
     } else if rng.chance(1, 2) {
         fields.push(field(0xF5FF, b"draft-ietf-ntp-ntpv5-08"));
+    }
+    if rng.chance(1, 6) {
+        // nothing but the draft identification and 1..3 SHORT identifiers (0..12 octets): an NTPv5 answer must
+        // fit the request however short its echoed fields are
+        for _ in 0..rng.usize(1, 3) {
+            let l = rng.usize(0, 12);
+            fields.push(field(0x0104, &rng.bytes(l)));
+        }
+        for f in fields {
+            m.extend(f);
+        }
+        return m;
     }
     let n = rng.usize(0, 3);
     for _ in 0..n {
